@@ -386,8 +386,9 @@ func report(p *Program, results []*Result, prop, tier, verif string, loadMs int6
 		"seed":        seedFromEnv(),
 		"level":       "proof",
 		"coverage": map[string]any{
-			"obligations":                      len(claimed),
+			"obligations":                      len(claimed) - deferred, // the obligations attempted in this tier
 			"discharged":                       discharged,
+			"obligations_claimed_all_tiers":    len(claimed),
 			"deferred_to_thorough_tier":        deferred,
 			"violations_replayed_on_real_code": replayed,
 			"checker_cmd":                      fmt.Sprintf("./check %s %s", prop, tier),
@@ -406,7 +407,7 @@ func report(p *Program, results []*Result, prop, tier, verif string, loadMs int6
 			"bounded_note":                     "bounded stand-ins (option unroll lemmas over literal inputs) are listed separately; they are not part of obligations/discharged and are never counted as proved",
 			"vacuity_checks":                   vacuityChecked,
 			"vacuity_failures":                 vacuityBad,
-			"explanation":                      "each obligation is one SMT query generated by symbolic execution of the go/ssa form of /repo's working tree; 'discharged' counts obligations of the lock file proved unsat in this run",
+			"explanation":                      "each obligation is one SMT query generated by symbolic execution of the go/ssa form of /repo's working tree; 'obligations' counts the lock-file obligations of this property attempted in this tier (obligations_claimed_all_tiers minus deferred_to_thorough_tier), 'discharged' those proved unsat in this run",
 		},
 		"assumptions": append(append(append([]string(nil), standingAssumptions...), tl...), propertyAssumptions(verif, prop)...),
 		"wall_s":      wall.Seconds(),
@@ -415,7 +416,7 @@ func report(p *Program, results []*Result, prop, tier, verif string, loadMs int6
 	os.MkdirAll(filepath.Join(verif, "evidence"), 0o755)
 	b, _ := json.MarshalIndent(ev, "", " ")
 	os.WriteFile(filepath.Join(verif, "evidence", prop+".json"), append(b, '\n'), 0o644)
-	fmt.Printf("evidence: %s obligations=%d discharged=%d deferred-to-thorough=%d violations=%d undecided=%d\n", prop, len(claimed), discharged, deferred, violations, len(undecided))
+	fmt.Printf("evidence: %s obligations=%d discharged=%d deferred-to-thorough=%d violations=%d undecided=%d\n", prop, len(claimed)-deferred, discharged, deferred, violations, len(undecided))
 	return code
 }
 
